@@ -27,7 +27,7 @@ def clauses():
         cur = None; k = 0
         for line in open(f):
             if line.startswith("=== fn "):
-                cur = line.split()[3]; k = 0
+                cur = line.split()[2] + "::" + line.split()[3]; k = 0
             elif line.startswith("=== "):
                 cur = None
             m = re.match(r"ensures\s*(?:\[([^\]]*)\])?", line)
